@@ -366,7 +366,7 @@ pub fn nest_child(depth: usize) -> ! {
 }
 
 fn nest_probe(depth: usize) -> Result<(), String> {
-    let exe = std::env::current_exe().map_err(|e| e.to_string())?;
+    let exe = crate::own_exe();
     let out = std::process::Command::new(exe).arg("c20-nest").arg(depth.to_string()).output().map_err(|e| e.to_string())?;
     if out.status.success() {
         Ok(())
